@@ -958,9 +958,13 @@ Definition tr_outcome_ok {digest : Type} (c : tr_cfg) (d : path) (f0 : fs) (item
 Definition tr_hdr_ok1 (ahdr : src -> Z -> list byte) (aparse : list byte -> option (src * Z)) (s : tr_entry) : Prop :=
   aparse (ahdr (tr_src s) (Z.of_N (te_size s))) = Some (tr_src s, Z.of_N (te_size s)) /\
   ~ In Consts.archive_newline (ahdr (tr_src s) (Z.of_N (te_size s))) /\
-  forallb valid_name (te_rel s) = true.
+  forallb valid_name (te_rel s) = true /\
+  bytes_ok (ahdr (tr_src s) (Z.of_N (te_size s))) = true.
 Definition tr_hdrs_ok (ahdr : src -> Z -> list byte) (aparse : list byte -> option (src * Z)) (es : list tr_entry) : Prop :=
   forall e s, In e es -> In s (te_subs e) -> tr_hdr_ok1 ahdr aparse s.
+(* the contents are bytes: of the items and of their SubFiles *)
+Definition tr_bytes_ok (items : list (tr_entry * tr_sched)) : Prop :=
+  Forall (fun es => Forall (fun m => bytes_ok (te_data m) = true) (tr_members (fst es))) items.
 (* resume: the prefix digests compared do not collide - the premise of C08_identical, for a source
    content and the content it meets at the destination *)
 Definition tr_no_collision (hx : list byte -> Resume.digest) (src old : list byte) : Prop :=
